@@ -98,7 +98,9 @@ func runLegacy(t *testing.T, sc lscenario, ch *sched.Chooser) (res sched.Result)
 			e.OnClock = func() { ticks++ }
 		}
 		e.Enable()
+		callerGone := false
 		e.Go("caller", func() {
+			defer func() { callerGone = true }()
 			started = true
 			sched.Obs("call")
 			got, gotErr = set.Do(ctx, sc.delay, f)
@@ -121,6 +123,12 @@ func runLegacy(t *testing.T, sc lscenario, ch *sched.Chooser) (res sched.Result)
 		evs := e.Events()
 		cancel()
 		leaked := sched.ShimLeaks(e.Teardown())
+		synctest.Wait()
+		if !callerGone {
+			// Do is blocked on a channel of its own although its context is cancelled and nothing else can happen
+			// (every goroutine of the bubble is durably blocked): "returns an error once ... the caller's context ends"
+			sched.GiveUp("hang-native", fmt.Sprintf("ReplicationSet.Do never returned, not even after its context was cancelled: status=%s log=%v", status, canon), ch, append(trace, canon...))
+		}
 		var viol, key string
 		fail := func(k, f string, a ...any) {
 			if viol == "" {
